@@ -3,7 +3,7 @@
 A change is stored only when seedeval confirmed it: demo passes without, fails with, suite passes with."""
 import json, os, re, shutil, sys
 R = "/verif"
-SR = os.environ.get("SEEDROOT", "/tmp/seed2")
+SR = os.environ.get("SEEDROOT", "/tmp/seed3")
 lines = [l.rstrip("\n") for l in open(R + "/.work/seedbatch.txt")]
 notes = json.load(open(R + "/tools/seednotes.json")) if os.path.exists(R + "/tools/seednotes.json") else {}
 res = {}
@@ -49,13 +49,15 @@ for key, rs in sorted(res.items()):
                 if f.endswith(".go") or f in ("go.mod", "go.sum"):
                     os.rename(os.path.join(root, f), os.path.join(root, f + ".txt"))
     mt = os.path.join(src, "meta%s.txt" % kk)
+    if not os.path.exists(mt):
+        mt = os.path.join(src, "notes%s.txt" % kk)      # round 3: the authors' notes files
     text = open(mt).read() if os.path.exists(mt) else ""
     verdict = "; ".join(c.replace("check=", "./check ", 1) for c in chk)
     caught = "VIOLATION" in verdict
     meta = {
         "property": prop,
         "breaks": re.sub(r"\s+", " ", text)[:1200],
-        "needs_to_manifest": section(text, r"what it needs") or "see breaks",
+        "needs_to_manifest": section(text, r"what (it needs|is needed)") or "see breaks",
         "confirmed": "tools/seedeval.sh / tools/seedbatch.sh in a scratch worktree of /repo (/tmp/evalrepo): the change compiles (go build ./...), the existing test suite passes with it (go test ./...), the demonstration fails with the change and passes without it: " + conf[0],
         "check_result": verdict,
         "caught": caught,
